@@ -664,34 +664,51 @@ def subscript(I, base, key):
                 return Vec([Vec([x]) for x in base.items], col=True)
             if len(key) == 2 and key[0] is None and key[1] == slice(None, None, None):
                 return Vec([Vec(list(base.items))])
-            if len(key) == 2 and base.items and all(isinstance(r, Vec) for r in base.items) \
-                    and (isinstance(key[0], Vec) or isinstance(key[1], Vec)):
-                # 2-D array with a boolean mask on one axis and ':' on the other
+            if len(key) == 2 and base.items and all(isinstance(r, Vec) for r in base.items):
+                # 2-D array a[rows, cols]: each selector an int, a slice, an integer array or a boolean mask
                 rk, ck = key
 
-                def decided(mask, n):
-                    vals = [k_ if isinstance(k_, bool) else (True if k_ is sp.true else False if k_ is sp.false else None) for k_ in mask.items]
-                    if len(vals) != n or None in vals:
-                        raise AnalysisError("boolean mask with undecided entries")
-                    return vals
-                if isinstance(rk, Vec) and ck == slice(None, None, None):
-                    keep = decided(rk, len(base.items))
-                    return Vec(r for r, k_ in zip(base.items, keep) if k_)
-                if isinstance(ck, Vec) and rk == slice(None, None, None):
-                    keep = decided(ck, len(base.items[0].items))
-                    return Vec(Vec(x for x, k_ in zip(r.items, keep) if k_) for r in base.items)
-                raise AnalysisError("array index form")
-            if len(key) == 2 and base.items and all(isinstance(r, Vec) for r in base.items):
-                # 2-D array: a[rows, cols] with ints / slices
-                rk, ck = key
-                rows = base.items[rk] if isinstance(rk, slice) else [base.items[concrete_int(rk)]] if _alg(rk) or isinstance(rk, int) else None
-                if rows is not None and (isinstance(ck, slice) or _alg(ck) or isinstance(ck, int)):
-                    if isinstance(ck, slice):
-                        picked = [Vec(r.items[ck]) for r in rows]
-                    else:
-                        j = concrete_int(ck)
-                        picked = [r.items[j] for r in rows]
-                    return Vec(picked) if isinstance(rk, slice) else picked[0]
+                def sel(items, k):
+                    """(selected items, whether the axis disappears, whether the selector is an index array)"""
+                    if isinstance(k, slice):
+                        return list(items[k]), False, False
+                    if isinstance(k, (Vec, list)):
+                        ks = list(k.items if isinstance(k, Vec) else k)
+                        if ks and all(isinstance(x, bool) or x is sp.true or x is sp.false for x in ks):
+                            if len(ks) != len(items):
+                                raise SymRaise("IndexError", "boolean index did not match indexed array")
+                            return [it for it, x in zip(items, ks) if x is True or x is sp.true], False, False
+                        if all(isinstance(x, (int, sp.Integer)) and not isinstance(x, bool) for x in ks):
+                            try:
+                                return [items[int(x)] for x in ks], False, True
+                            except IndexError:
+                                raise SymRaise("IndexError", "index out of bounds")
+                        if all(isinstance(x, (bool, sp.logic.boolalg.Boolean)) for x in ks):
+                            raise AnalysisError("boolean mask with undecided entries")
+                        raise AnalysisError("array index form")
+                    if _alg(k) or isinstance(k, int):
+                        try:
+                            return [items[concrete_int(k)]], True, False
+                        except IndexError:
+                            raise SymRaise("IndexError", "index out of bounds")
+                    raise AnalysisError("array index form")
+                rows, rscalar, rfancy = sel(base.items, rk)
+                picked = [sel(r.items, ck) for r in rows]
+                cfancy = bool(picked) and picked[0][2]
+                cscalar = bool(picked) and picked[0][1] if picked else (not isinstance(ck, (slice, Vec, list)))
+                if rfancy and cfancy:
+                    # two index arrays pair up element by element
+                    ks = list(ck.items if isinstance(ck, Vec) else ck)
+                    if len(ks) != len(rows):
+                        raise SymRaise("IndexError", "shape mismatch: indexing arrays could not be broadcast together")
+                    return Vec(r.items[int(x)] for r, x in zip(rows, ks))
+                if rscalar and cscalar:
+                    return picked[0][0][0]
+                if rscalar:
+                    return Vec(picked[0][0])
+                if cscalar:
+                    return Vec(p_[0][0] for p_ in picked)
+                return Vec(Vec(p_[0]) for p_ in picked)
             raise AnalysisError("array index form")
         if isinstance(key, slice):
             return Vec(base.items[key])
@@ -2235,6 +2252,27 @@ def _math(I, name):
         def interp(x, xp, fp, left=None, right=None):
             if isinstance(x, Vec):
                 return Vec(interp(e, xp, fp, left, right) for e in x)
+
+            def num(v):
+                return _alg(v) and (to_expr(v).is_number or to_expr(v) is sp.nan)
+            if num(x) and to_expr(x) is not sp.nan and isinstance(xp, Vec) and isinstance(fp, Vec) and len(xp) == len(fp) and len(xp) >= 1 \
+                    and all(num(i) and to_expr(i).is_real for i in xp.items) and all(num(i) for i in fp.items) \
+                    and all(v is None or num(v) for v in (left, right)):
+                # a concrete table and a concrete abscissa: numpy's piecewise-linear interpolant, exactly
+                xv, xs_, fs_ = to_expr(x), [to_expr(i) for i in xp.items], [to_expr(i) for i in fp.items]
+                if not all(a_ < b_ for a_, b_ in zip(xs_, xs_[1:])):
+                    raise AnalysisError("numpy.interp on a table whose abscissae are not increasing")
+                if xv < xs_[0]:
+                    return fs_[0] if left is None else to_expr(left)
+                if xv > xs_[-1]:
+                    return fs_[-1] if right is None else to_expr(right)
+                for j_, xj in enumerate(xs_):
+                    if xv == xj:
+                        return fs_[j_]
+                j_ = max(i_ for i_, xj in enumerate(xs_) if xj < xv)
+                if fs_[j_] is sp.nan or fs_[j_ + 1] is sp.nan:
+                    return sp.nan
+                return fs_[j_] + (fs_[j_ + 1] - fs_[j_]) * (xv - xs_[j_]) / (xs_[j_ + 1] - xs_[j_])
 
             def sy(v, nm):
                 if v is None:
